@@ -171,4 +171,12 @@ def run(tier, seed):
 
 
 def replay(case):
-    return X.generic_replay(case, Mon)
+    r = X.generic_replay(case, Mon)
+    # a quiescence witness is a history in which every worker answered (the exploration drains adaptively).  Replayed on
+    # another tree the same fixed replies may leave a unit in flight: then the premise of the clause is not met there and
+    # the recorded violation is not reproduced
+    if (r.get('reproduced') and r.get('signature') == 'no-quiescence-with-answering-workers'
+            and (r.get('observed') or {}).get('running') and not ((case.get('observed') or {}).get('running'))):
+        return {'reproduced': False, 'observed': r['observed'],
+                'expected': 'a history in which every worker has answered (a unit is still in flight on this tree: premise not met)'}
+    return r
